@@ -2,6 +2,7 @@ import MosnVerif.Drive.Util
 import MosnVerif.Model.LB
 import MosnVerif.Model.Snapshot
 import MosnVerif.Drive.C05Hops
+import MosnVerif.Drive.C05Pool
 namespace MosnVerif.Drive.C05
 open MosnVerif.Drive MosnVerif.Model.LB MosnVerif.Model.EDF
 
@@ -160,6 +161,7 @@ def run (caseToks impl : List String) : String :=
   | ["snap", _, inter] => snap inter impl
   | ["conc", _, _, _] => conc impl
   | ["hops", polsub, ops] => MosnVerif.Drive.C05Hops.hops polsub ops impl
+  | ["plk", psm, ops] => MosnVerif.Drive.C05Pool.plk psm ops impl
   | _ => "E E unknown-kind"
 
 end MosnVerif.Drive.C05
